@@ -25,7 +25,7 @@ CONFIGS = {
   protocols: [PROTOCOL_CONNECT]
   codecs: [CODEC_PROTO, CODEC_JSON]
   compressions: [COMPRESSION_IDENTITY]
-  stream_types: [STREAM_TYPE_UNARY]
+  stream_types: [STREAM_TYPE_UNARY, STREAM_TYPE_CLIENT_STREAM]
   supports_tls: true
   supports_tls_client_certs: true
   supports_connect_get: true
@@ -42,6 +42,18 @@ CONFIGS = {
   supports_message_receive_limit: false
 """,
 }
+# one big TLS batch: the runner's hand-over is paced by the client, the server leaves cleanly in the middle
+CONFIG_D = """features:
+  versions: [HTTP_VERSION_2]
+  protocols: [PROTOCOL_CONNECT, PROTOCOL_GRPC, PROTOCOL_GRPC_WEB]
+  codecs: [CODEC_PROTO, CODEC_JSON]
+  compressions: [COMPRESSION_IDENTITY, COMPRESSION_GZIP]
+  stream_types: [STREAM_TYPE_UNARY, STREAM_TYPE_CLIENT_STREAM, STREAM_TYPE_SERVER_STREAM, STREAM_TYPE_HALF_DUPLEX_BIDI_STREAM, STREAM_TYPE_FULL_DUPLEX_BIDI_STREAM]
+  supports_tls: true
+  supports_h2c: false
+  supports_tls_client_certs: false
+  supports_message_receive_limit: false
+"""
 SUITE_PATTERNS = {"A": ["Basic/**"], "B": ["Basic/**", "TLS Client Certs/**", "Connect with GET/**"], "C": ["Basic/**"]}
 
 
@@ -186,6 +198,8 @@ def check_run(ctx, res, sel, setup, max_servers, fail_key, rid, stats, desc):
             continue
         e = got[0]
         stats["dispatches_checked"] = stats.get("dispatches_checked", 0) + 1
+        if info["certs"]:
+            stats["client_cert_dispatches_checked"] = stats.get("client_cert_dispatches_checked", 0) + 1
         if setup == "server":
             # the RPC was logged by the very instance it reached: instance config must equal the name's axes
             if e["key"] != key_of(info):
@@ -218,10 +232,85 @@ def check_run(ctx, res, sel, setup, max_servers, fail_key, rid, stats, desc):
     stats["permutations_selected"] = stats.get("permutations_selected", 0) + len(sel)
 
 
+def server_leaves_run(ctx, bins, peer, rid, exit_code, die_ms, stats):
+    """A server instance that ends on its own (exit status exit_code) in the middle of a large batch: what the
+    runner hands to the client afterwards is bounded by what the pipe could already hold, the rest is reported."""
+    d = os.path.join(ctx.W, "c05-leave-%d" % rid)
+    os.makedirs(d, exist_ok=True)
+    confp = os.path.join(d, "conf.yaml")
+    open(confp, "w").write(CONFIG_D)
+    run = ["Basic/**", "Duplicate Metadata/**", "Errors/**"]
+    sel = e2e.model_selection(ctx, confp, "both", run, ())
+    if not sel:
+        return
+    by_key = {}
+    for n, info in sel.items():
+        by_key.setdefault(key_of(info), []).append(n)
+    key = max(sorted(by_key), key=lambda k: (k.endswith("tls=true/cc=false"), len(by_key[k])))
+    evp = os.path.join(d, "events.jsonl")
+    script = {"default": "canned", "probe": False, "seed": ctx.seed * 100 + rid, "mode": "logging", "read_delay_ms": 4,
+              "die_after_ms_for": {key: die_ms}, "die_exit_code": exit_code}
+    args = ["-v", "--conf", confp, "--mode", "both", "--max-servers", "1"]
+    for r in run:
+        args += ["--run", r]
+    args += ["--", peer, "client", "----", peer, "server"]
+    env = {"VERIF_EVENTLOG": evp, "VERIF_PEER_SCRIPT": json.dumps(script)}
+    rc, to, text = e2e.run_runner(ctx, bins, args, "c05-leave-%d" % rid, timeout=600, env=env, race_label="c05-leave-%d" % rid)
+    evs = load_events(evp)
+    out = e2e.parse_output(text)
+    w = {"scenario": "server instance %s exits with status %d, %d ms after it was ready, batch of %d permutations" % (key, exit_code, die_ms, len(by_key[key])),
+         "argv": " ".join(args), "script": script, "exit": rc, "output_tail": text[-1200:]}
+    if to:
+        ctx.add_violation("c05/not-terminating/server-leaves", "the run did not terminate within the progress bound", w)
+        return
+    death = [e for e in evs if e["ev"] == "server_exit" and e.get("why") == "scripted death" and e.get("key") == key]
+    pipe = max([e.get("stdin_pipe_bytes", 0) for e in evs if e["ev"] == "client_start"] + [0])
+    if not death or pipe <= 0:
+        ctx.inconclusive.append("c05 server-leaves: the scripted death was not observed (%d death events, pipe %d)" % (len(death), pipe))
+        return
+    t_x = min(e["t"] for e in death)
+    names = set(by_key[key])
+    recv = [e for e in evs if e["ev"] == "client_recv" and e["name"] in names]
+    before = [e for e in recv if e["t"] <= t_x]
+    after = [e for e in recv if e["t"] > t_x]
+    bytes_after = sum(e.get("bytes", 0) for e in after)
+    batch_bytes_est = sum(e.get("bytes", 0) for e in recv) or 1
+    avg = batch_bytes_est / max(1, len(recv))
+    # everything the runner wrote before it could know sits in the pipe (capacity logged by the client) or in the
+    # client's read buffer; the allowance also covers the hand-overs in flight while the exit is being noticed
+    allowed = pipe + 65536 + 4 * int(max(e.get("bytes", 0) for e in recv) if recv else 0)
+    remaining_bytes_if_all_sent = (len(names) - len(before)) * avg
+    w.update({"handed_before_exit": len(before), "handed_after_exit": len(after), "bytes_after_exit": bytes_after, "allowed_bytes": allowed, "pipe_capacity": pipe, "batch": len(names)})
+    stats.setdefault("server_leaves", []).append({k: w[k] for k in ("scenario", "handed_before_exit", "handed_after_exit", "bytes_after_exit", "allowed_bytes", "batch")})
+    if remaining_bytes_if_all_sent < 2 * allowed:
+        ctx.inconclusive.append("c05 server-leaves: the batch was too small to tell (remaining %.0f bytes, allowance %d)" % (remaining_bytes_if_all_sent, allowed))
+        return
+    stats["server_leaves_decided"] = stats.get("server_leaves_decided", 0) + 1
+    if bytes_after > allowed:
+        ctx.add_violation("c05/handed-over-after-server-exit/status-%d" % exit_code,
+                          "%d permutations (%d bytes) of the batch were handed to the client after their server had exited with status %d; at most %d bytes could have been in the pipe already" % (len(after), bytes_after, exit_code, allowed), w)
+    # exactly once or reported
+    seen = {}
+    for e in recv:
+        seen[e["name"]] = seen.get(e["name"], 0) + 1
+    for n in sorted(names):
+        c = seen.get(n, 0)
+        if c > 1:
+            ctx.add_violation("c05/duplicate/both/server-leaves", "permutation %r was handed out %d times" % (n, c), w)
+            break
+        if c == 0 and n not in out["failed"]:
+            ctx.add_violation("c05/not-run-not-reported/server-leaves", "permutation %r was neither handed to the client nor reported as failed after its server left" % n, w)
+            break
+    if rc == 0:
+        ctx.add_violation("c05/run-succeeds-although-server-left", "the run exits 0 although server %s left in the middle of its batch" % key, w)
+
+
 def run(ctx, bins, peer, tier):
     rnd = random.Random(ctx.seed * 7919 + 1)
     stats = {}
     ctx.extra["c05"] = stats
+    for j, (code, ms) in enumerate([(0, 150), (1, 150)] if tier == "quick" else [(0, 100), (1, 100), (0, 300), (3, 300), (0, 20), (0, 600)]):
+        server_leaves_run(ctx, bins, peer, j, code, ms, stats)
     nruns = 18 if tier == "quick" else 150
     plans = []
     for i in range(nruns):
@@ -279,3 +368,7 @@ def run(ctx, bins, peer, tier):
     ctx.extra["rule"] = "runs of the race-built runner with the scriptable helper peers in modes server (helper logging server under test), client (helper probing client under test) and both; 3 configs (TLS/h2c, client certs + HTTP/3 + GET, gRPC streams) x embedded suites x random --run/--skip patterns derived from the model's names x --max-servers {1,2,3,8} x GOMAXPROCS {1,2,16} x answer/start latencies x optional start failure of one server instance; distinct = dispatches checked against the event log"
     ctx.extra["samples"] = [{"event_log_line": {"ev": "client_recv", "name": "Basic/HTTPVersion:2/Protocol:PROTOCOL_GRPC/.../TLS:true/unary/success", "port": 40123, "probe": "ok alpn=h2", "name_header": "<same name>"}}]
     ctx.extra["not_exhaustive"] = True
+    if stats.get("client_cert_dispatches_checked", 0) < 3:
+        ctx.inconclusive.append("c05: fewer than 3 client-certificate permutations were dispatched and checked (%d)" % stats.get("client_cert_dispatches_checked", 0))
+    if stats.get("server_leaves_decided", 0) < 1:
+        ctx.inconclusive.append("c05: no server-leaves scenario was decidable")
